@@ -1,65 +1,5 @@
-//@unit bw_zoom
-//@serves C07 C13 C09
-//@backend verus
-// bigWig zoom tiling: bigwigwrite::process_val_zoom, per-level loop body (R9 outline).
-// The property (C07): records in order, disjoint, at most `size` long, one chromosome,
-// bases_covered == number of data bases inside the record's span (so uncovered bases are
-// never counted), every data base lies in exactly one record, termination, batches of
-// 1..=items_per_slot records, nothing left pending at the end of the chromosome.
-use vstd::prelude::*;
-use vstd::std_specs::ops::*;
-use vstd::std_specs::convert::FromSpec;
-verus! {
-//@include ../_shared/floats.rs
-
-//@extract struct bigtools/src/bbi.rs Summary
-//@rule R8
-//@end
-//@extract struct bigtools/src/bbi.rs ZoomRecord
-//@rule R8
-//@end
-//@extract struct bigtools/src/bbi.rs Value
-//@rule R8
-//@end
-//@extract enum bigtools/src/bbi/bbiwrite.rs InputSortType
-//@rule R8
-//@end
-//@extract struct bigtools/src/bbi/bbiwrite.rs BBIWriteOptions
-//@rule R8
-//@sub /#\[derive\(Clone\)\]\n/ => ""
-//@end
-
-// R2 shim: the spawn(encode_zoom_section(..)) + channel send hand-off.  Assumed contract:
-// the batch is appended, in order, to the level's record stream.  `requires` = the callee's
-// own precondition (encode_zoom_section indexes items[0]); verified separately in unit zoom_enc.
-#[verifier::external_body]
-pub struct ZoomSink { _p: u8 }
-impl ZoomSink {
-    pub uninterp spec fn log(&self) -> Seq<ZoomRecord>;
-    pub uninterp spec fn batches(&self) -> Seq<int>;
-    #[verifier::external_body]
-    fn emit_encode_zoom_section(&mut self, compress: bool, items: Vec<ZoomRecord>)
-        requires
-            items@.len() > 0,
-        ensures
-            final(self).log() == old(self).log() + items@,
-            final(self).batches() == old(self).batches().push(items@.len() as int),
-    { unimplemented!() }
-}
-fn take_vec(v: &mut Vec<ZoomRecord>) -> (r: Vec<ZoomRecord>)
-    ensures r@ == old(v)@, final(v)@.len() == 0
-{ let mut n = Vec::new(); std::mem::swap(v, &mut n); n }
-fn max_u32(a: u32, b: u32) -> (r: u32) ensures r == if a >= b { a } else { b } { if a >= b { a } else { b } }
-fn min_u32(a: u32, b: u32) -> (r: u32) ensures r == if a <= b { a } else { b } { if a <= b { a } else { b } }
-
-//@extract struct bigtools/src/bbi/bigwigwrite.rs ZoomItem
-//@rule R8
-//@sub /BBIDataProcessoringInputSectionChannel/ => ZoomSink
-//@end
-
-// ---------------- specification vocabulary (written from the property) ----------------
-spec fn imax(a: int, b: int) -> int { if a >= b { a } else { b } }
-spec fn imin(a: int, b: int) -> int { if a <= b { a } else { b } }
+// ---------------- tiling vocabulary + lemmas: same text as contracts/bw_zoom (C07), history := flushed depth segments ----
+// (only change: the open record is `live_of(z)`, closing overwrites total_items: `closed_rec`)
 /// number of bases of [vs,ve) inside [a,b)
 spec fn ov(vs: int, ve: int, a: int, b: int) -> int {
     let lo = imax(vs, a); let hi = imin(ve, b); if hi > lo { hi - lo } else { 0 }
@@ -92,6 +32,12 @@ spec fn ends_by(h: Seq<Value>, m: int) -> bool {
 }
 /// closed records (already emitted ++ pending in `records`)
 spec fn closed_of(z: ZoomItem) -> Seq<ZoomRecord> { z.channel.log() + z.records@ }
+/// the open record (bigBed keeps it as a pair (record, item count))
+spec fn live_of(z: ZoomItem) -> Option<ZoomRecord> { match z.live_info { Some(t) => Some(t.0), None => None } }
+/// what is pushed when the open record is closed: its total_items is overwritten by the pair's count
+spec fn closed_rec(l: ZoomRecord, n: u64) -> ZoomRecord {
+    ZoomRecord { chrom: l.chrom, start: l.start, end: l.end, summary: Summary { total_items: n, bases_covered: l.summary.bases_covered, min_val: l.summary.min_val, max_val: l.summary.max_val, sum: l.summary.sum, sum_squares: l.summary.sum_squares } }
+}
 
 /// one finished record against the data: the C07 per-record clauses.
 /// `cs, cf`: the part [cs, cf) of the value currently being added (cs == cf when none).
@@ -135,8 +81,8 @@ spec fn deep(c: Seq<ZoomRecord>, live: Option<ZoomRecord>, h: Seq<Value>, cs: in
 /// C07 state invariant of one zoom level after the values `h` (+ the part [cs,cf) of the current one)
 spec fn zoom_ok(z: ZoomItem, h: Seq<Value>, cs: int, cf: int, chrom: u32, ips: int, items_bound: int) -> bool {
     &&& z.size > 0
-    &&& live_bounds(z.live_info, z.size, cf, items_bound)
-    &&& deep(closed_of(z), z.live_info, h, cs, cf, z.size as int, chrom)
+    &&& live_bounds(live_of(z), z.size, cf, items_bound)
+    &&& deep(closed_of(z), live_of(z), h, cs, cf, z.size as int, chrom)
     &&& forall|i: int| 0 <= i < z.channel.batches().len() ==> 1 <= #[trigger] z.channel.batches()[i] <= ips
 }
 
@@ -242,8 +188,8 @@ proof fn lemma_close_live(c: Seq<ZoomRecord>, l: ZoomRecord, h: Seq<Value>, cs: 
 }
 /// what one tiling step does to the open record, transcribed as a relation:
 /// `base` = the open record or a fresh one at a0; a1 = min(base.start+size, ce);
-/// if a1 > a0 the record is extended to a1 and gains a1-a0 bases; otherwise it is left alone
-/// (C07: a record's statistics are those of the values INSIDE its span).
+/// if a1 > a0 the record is extended to a1 and gains a1-a0 bases; otherwise (its window ends at or
+/// before the segment start) it is left alone -- it must not absorb anything of a segment outside its span.
 spec fn step_rel(live0: Option<ZoomRecord>, l1: ZoomRecord, a0: int, a1: int, ce: int, size: int, chrom: u32) -> bool {
     let fresh = live0.is_none();
     let bs = if fresh { a0 } else { live0.unwrap().start as int };
@@ -280,7 +226,7 @@ proof fn lemma_step(c: Seq<ZoomRecord>, live0: Option<ZoomRecord>, l1: ZoomRecor
         lemma_cov_zero_after(h, a0, a1, cs);
     } else {
         let l0 = live0.unwrap();
-        if a1 > a0 {
+        if a1 >= a0 {
             lemma_cov_extend(h, l0.start as int, l0.end as int, a1, l0.end as int);
         }
     }
@@ -302,129 +248,48 @@ proof fn lemma_step(c: Seq<ZoomRecord>, live0: Option<ZoomRecord>, l1: ZoomRecor
     }
 }
 
-//@extract loopbody bigtools/src/bbi/bigwigwrite.rs process_val_zoom 1
-//@header fn process_val_zoom__level(zoom_item: &mut ZoomItem, options: &BBIWriteOptions, current_val: Value, next_val: Option<&Value>, chrom_id: u32, Ghost(hist): Ghost<Seq<Value>>, Ghost(prev_end): Ghost<int>)
-//@rule R2 min=1
-//@rule R1
-//@rule R5 min=4
-//@rule R6 min=2
-//@rule R12
-//@rule R12c
-//@sub /zoom_item\.records\.is_empty\(\)/ => (zoom_item.records.len() == 0)
-//@sig
-    requires
-        [[L: pre]]
-        hist_ok(hist.push(current_val)),
-        options.items_per_slot >= 1,
-        hist.len() < 0xffff_ffff_ffff,
-        current_val.end as int + old(zoom_item).size as int <= u32::MAX as int,
-        prev_end <= current_val.start, ends_by(hist, prev_end),
-        old(zoom_item).records@.len() < options.items_per_slot,
-        zoom_ok(*old(zoom_item), hist, prev_end, prev_end, chrom_id, options.items_per_slot as int, hist.len() as int),
-    ensures
-        [[L: tiling_invariant]]
-        zoom_ok(*final(zoom_item), hist.push(current_val), current_val.end as int, current_val.end as int, chrom_id, options.items_per_slot as int, hist.len() as int + 1),
-        [[L: size_unchanged]]
-        final(zoom_item).size == old(zoom_item).size,
-        [[L: batch_not_full_at_exit]]
-        final(zoom_item).records@.len() < options.items_per_slot,
-        [[L: chrom_end_flushes_everything]]
-        next_val.is_none() ==> final(zoom_item).live_info.is_none() && final(zoom_item).records@.len() == 0,
-        [[L: stream_only_grows]]
-        old(zoom_item).channel.log().is_prefix_of(final(zoom_item).channel.log()),
-//@open
-        proof {
-            lemma_hist_ends_by(hist, current_val);
-            lemma_start_value(closed_of(*zoom_item), zoom_item.live_info, hist, prev_end, current_val.start as int, zoom_item.size as int, chrom_id);
-        }
-        let ghost cs = current_val.start as int;
-        let ghost ips = options.items_per_slot as int;
-        let ghost log0 = zoom_item.channel.log();
-//@loop 1
-            invariant
-                [[L: loop/add_start_in_value]]
-                current_val.start <= add_start <= current_val.end,
-                [[L: loop/frame]]
-                cs == current_val.start as int, ips == options.items_per_slot as int, ips >= 1,
-                ends_by(hist, cs), hist.len() < 0xffff_ffff_ffff,
-                zoom_item.size == old(zoom_item).size,
-                current_val.end as int + zoom_item.size as int <= u32::MAX as int,
-                log0 == old(zoom_item).channel.log(),
-                [[L: loop/batch_bound]]
-                zoom_item.records@.len() <= ips,
-                [[L: loop/tiling_invariant]]
-                zoom_ok(*zoom_item, hist, cs, add_start as int, chrom_id, ips, hist.len() as int + (if add_start == current_val.end { 1int } else { 0int })),
-                [[L: loop/stream_only_grows]]
-                log0.is_prefix_of(zoom_item.channel.log()),
-            ensures
-                [[L: loop/exit]]
-                add_start == current_val.end,
-                zoom_item.records@.len() < ips,
-                zoom_item.size == old(zoom_item).size,
-                zoom_ok(*zoom_item, hist, cs, add_start as int, chrom_id, ips, hist.len() as int + 1),
-                log0.is_prefix_of(zoom_item.channel.log()),
-                next_val.is_none() ==> zoom_item.live_info.is_none() && zoom_item.records@.len() == 0,
-            decreases
-                [[L: loop/termination]]
-                (current_val.end - add_start) as int,
-                (if zoom_item.live_info.is_some() { 1int } else { 0int }),
-//@at /let items = take_vec\(&mut zoom_item\.records\);/ before
-                let ghost c_before = closed_of(*zoom_item);
-//@at /zoom_item\.channel\.emit_encode_zoom_section/ after
-                proof {
-                    assert(closed_of(*zoom_item) =~= c_before);
-                }
-//@at /zoom_item\.records\.push\(zoom2\);/ before
-                        let ghost c_before = closed_of(*zoom_item);
-//@at /zoom_item\.records\.push\(zoom2\);/ after
-                        proof {
-                            assert(closed_of(*zoom_item) =~= c_before.push(zoom2));
-                            lemma_close_live(c_before, zoom2, hist, cs, add_start as int, zoom_item.size, chrom_id, hist.len() as int + 1);
-                        }
-//@at /let val = f64::from\(current_val\.value\);/ before
-            proof { float_ax::float_det(); }
-            let ghost c_mid = closed_of(*zoom_item);
-            let ghost live0 = zoom_item.live_info;
-//@at /if add_end >=? add_start \{/ before
-            proof {
-                // C07: a record's min/max/sum are those of the values inside it: a record opened by this value starts from it
-                if live0.is_none() {
-                    assert(zoom2.summary.min_val == f64::from_spec(current_val.value) && zoom2.summary.max_val == f64::from_spec(current_val.value)); [[L: shape/fresh_record_starts_from_its_first_value]]
-                    assert(zoom2.summary.bases_covered == 0 && zoom2.summary.total_items == 0 && zoom2.start == add_start && zoom2.end == add_start && zoom2.chrom == chrom_id); [[L: shape/fresh_record_is_empty_at_add_start]]
-                }
-            }
-            let ghost sum0 = zoom2.summary.sum;
-            let ghost ssq0 = zoom2.summary.sum_squares;
-            let ghost min0 = zoom2.summary.min_val;
-            let ghost max0 = zoom2.summary.max_val;
-            let ghost items0 = zoom2.summary.total_items;
-//@at /zoom2\.summary\.sum_squares = zoom2\.summary\.sum_squares \+/ after
-                proof {
-                    // float fields: shape pinned over uninterpreted float operators (C07 "sum, sum of squares, min, max")
-                    let w = f64::from_spec((add_end - add_start) as u32);
-                    let x = f64::from_spec(current_val.value);
-                    assert(add_end > add_start); [[L: shape/record_only_absorbs_values_with_bases_inside_it]]
-                    assert(zoom2.summary.sum == sum0.add_spec(w.mul_spec(x))); [[L: shape/sum_weighted_by_added_bases]]
-                    assert(zoom2.summary.sum_squares == ssq0.add_spec(w.mul_spec(x).mul_spec(x))); [[L: shape/sum_squares]]
-                    assert(zoom2.summary.min_val == fmin(min0, x)); [[L: shape/min]]
-                    assert(zoom2.summary.max_val == fmax(max0, x)); [[L: shape/max]]
-                    assert(zoom2.summary.total_items == items0 + 1); [[L: shape/items]]
-                }
-//@at /if add_end == next_end \{/ before
-            let ghost l1 = zoom_item.live_info.unwrap();
-            proof {
-                assert(closed_of(*zoom_item) =~= c_mid);
-                lemma_step(c_mid, live0, l1, hist, cs, add_start as int, add_end as int, current_val.end as int, zoom_item.size, chrom_id, hist.len() as int); [[L: loop/step_matches_tiling_relation]]
-            }
-//@at /zoom_item\.records\.push\(zoom_item\.live_info\.take\(\)\.unwrap\(\)\);/ after
-                proof {
-                    assert(closed_of(*zoom_item) =~= c_mid.push(l1));
-                }
-//@close
-        proof {
-            lemma_finish_value(closed_of(*zoom_item), zoom_item.live_info, hist, current_val, zoom_item.size as int, chrom_id);
-        }
-//@end
-
-} // verus!
-fn main() {}
+/// closing pushes the record with its total_items overwritten: nothing the tiling contract looks at changes
+proof fn lemma_closed_rec(c: Seq<ZoomRecord>, l: ZoomRecord, n: u64, h: Seq<Value>, cs: int, cf: int, size: int, chrom: u32)
+    requires deep(c.push(l), None, h, cs, cf, size, chrom),
+    ensures deep(c.push(closed_rec(l, n)), None, h, cs, cf, size, chrom),
+{
+    reveal(deep);
+    let c1 = c.push(l);
+    let c2 = c.push(closed_rec(l, n));
+    lemma_sum_bc_push(c, l);
+    lemma_sum_bc_push(c, closed_rec(l, n));
+    assert forall|i: int| 0 <= i < c2.len() implies rec_ok(#[trigger] c2[i], h, cs, cf, size, chrom) by {
+        assert(rec_ok(c1[i], h, cs, cf, size, chrom));
+        if i < c.len() { assert(c2[i] == c[i]); assert(c1[i] == c[i]); }
+    }
+    assert forall|i: int| 0 <= i < c2.len() - 1 implies (#[trigger] c2[i]).end <= c2[i + 1].start by {
+        assert(c1[i].end <= c1[i + 1].start);
+        assert(c2[i] == c[i]); assert(c1[i] == c[i]);
+        if i + 1 < c.len() { assert(c2[i + 1] == c[i + 1]); assert(c1[i + 1] == c[i + 1]); }
+    }
+}
+/// every value of h ends at or before m (zero-length ones included)
+spec fn before(h: Seq<Value>, m: int) -> bool {
+    forall|i: int| 0 <= i < h.len() ==> (#[trigger] h[i]).end <= m
+}
+proof fn lemma_hist_push(h: Seq<Value>, v: Value)
+    requires hist_ok(h), before(h, v.start as int), v.start <= v.end,
+    ensures hist_ok(h.push(v)), before(h.push(v), v.end as int), ends_by(h, v.start as int),
+{
+    let hp = h.push(v);
+    assert forall|i: int| 0 <= i < hp.len() implies (#[trigger] hp[i]).start <= hp[i].end by {
+        if i < h.len() { assert(hp[i] == h[i]); }
+    }
+    assert forall|i: int, j: int| 0 <= i < j < hp.len() implies (#[trigger] hp[i]).end <= (#[trigger] hp[j]).start by {
+        assert(hp[i] == h[i]);
+        if j < h.len() { assert(hp[j] == h[j]); }
+    }
+    assert forall|i: int| 0 <= i < hp.len() implies (#[trigger] hp[i]).end <= v.end by {
+        if i < h.len() { assert(hp[i] == h[i]); }
+    }
+}
+proof fn lemma_before_mono(h: Seq<Value>, m: int, m2: int)
+    requires before(h, m), m <= m2,
+    ensures before(h, m2), ends_by(h, m2), ends_by(h, m),
+{
+}
